@@ -108,6 +108,8 @@ package fsnotify
 
 //@ func (w *inotify) remove(name string) (err error)
 //@   local wds []uint32
+//@   requires token(sawOpen)
+//@   ensures token(sawOpen)
 //@   mode modeA: !enableRecurse
 //@   requires held(shared.mu) && !held(inotify.cookiesMu) && Wf(w) && TablesInv(w.watches)
 //@   requires forall(k, uint32, has(w.watches.wd, k) ==> has(K, k) || has(Pending, k))
@@ -136,6 +138,8 @@ package fsnotify
 // register (with updatePath and the closure inlined). k is the kernel's answer
 // (ghost lastWd, set by the assumed contract of inotify_add_watch).
 //@ func (w *inotify) register(path string, flags uint32, recurse bool) (err error)
+//@   requires token(sawOpen)
+//@   ensures token(sawOpen)
 //@   mode modeA: !enableRecurse
 //@   requires held(shared.mu) && !held(inotify.cookiesMu) && Wf(w) && TablesInv(w.watches) && KInv(w.watches)
 //@   requires filepath.Clean(path) == path                                                         [C04 C08]
@@ -160,6 +164,7 @@ package fsnotify
 //@             w.watches.path == set(P0, path, k) && w.watches.wd == set(del(W0, P0[path]), k, W0[P0[path]]) && !has(K, P0[path])   [C04 C09 C12] "a listed path that now names a new file: its watch moves there and the old kernel watch is released"
 
 //@ func (w *inotify) AddWith(path string, opts ...addOpt) (err error)
+//@   requires !token(sawOpen)
 //@   local with withOpts
 //@   mode modeA: !enableRecurse
 //@   requires Wf(w) && nolocks()
@@ -182,6 +187,7 @@ package fsnotify
 //@        ite(op & xUnportableCloseRead != 0, uint32(unix.IN_CLOSE_NOWRITE), 0)
 
 //@ func (w *inotify) Remove(name string) (err error)
+//@   requires !token(sawOpen)
 //@   mode modeA: !enableRecurse
 //@   requires Wf(w) && nolocks()
 //@   let p = filepath.Clean(name)
@@ -216,6 +222,8 @@ package fsnotify
 //@ fun kparentWatched(wd uint32) bool
 
 //@ func (w *inotify) handleEvent(inEvent *unix.InotifyEvent, buf *[65536]byte, offset uint32) (ev Event, ok bool)
+//@   requires token(sawOpen)
+//@   ensures token(sawOpen)
 //@   mode modeA: !enableRecurse
 //@   requires token(reader) && nolocks() && Wf(w) && RingInv(w) && inEvent != nil && buf != nil
 //@   requires !closed(w.Errors) && !closed(w.Events)
@@ -278,6 +286,7 @@ package fsnotify
 //@     init he = hist(w.Errors)
 //@     init p0 = Pending
 //@     invariant token(reader) && nolocks() && Wf(w) && RingInv(w) && !closed(w.Events) && !closed(w.Errors) && !closed(w.doneResp)    [C05 C06]
+//@     invariant token(sawOpen)
 //@     invariant 0 <= k && k <= recN && loopvar == recOff[k]                              [C01 C03 C08] "the cursor is at the start of record k"
 //@     invariant hist(w.Events) == hs                                                     [C01 C03] "exactly the translated records so far, in order"
 //@     invariant hist(w.Errors) == he || closed(w.done)                                   [C01 C10] "Errors holds exactly the overflow announcements so far"
@@ -294,6 +303,7 @@ package fsnotify
 //@   ensures old(closed(w.done)) ==> err == nil                                           [C05] "Close may be called any number of times"
 //@   ensures nolocks()                                                                    [C05 C07]
 //@   ensures token(closer) && err == nil ==> !fdOpen && forall(k, uint32, !has(K, k)) && fds == old(fds) - 1     [C13] "the first Close releases the descriptor and with it every kernel watch"
+//@   ensures token(closer) ==> closeCalls == old(closeCalls) + 1                          [C13] "the call that marks the Watcher closed always goes on to close the inotify file, whatever else fails"
 //@   ensures !token(closer) ==> fds == old(fds)                                           [C13]
 
 //@ func newBackend(ev chan Event, errs chan error) (b backend, err error)
